@@ -108,8 +108,11 @@ CHECKS['C01'] = dict(
          'predicate (in cube, in own bound, outside every later bound, '
          'shell_association agrees, no row in two shells or pending and '
          'stored) is evaluated on all stored points after every add_bound, '
-         'add_samples, write, write_shell_update and operation: tens of '
-         'thousands of observation instants and millions of rows per run.',
+         'add_samples, write, write_shell_update and operation, and on a second '
+         'sampler loaded from a copy of the file after every sixth checkpoint '
+         'write: tens of thousands of observation instants and millions of '
+         'rows per run. One case in five is the tiny-batch configuration in '
+         'which a third of the shells end up empty.',
     note='d<=5, <=12 bound constructions and <=150 batches per case; tiny '
          'networks; uses the bounds\' own contains() as the predicate.',
     technique='property-based testing (Hypothesis) of generated histories '
@@ -121,7 +124,9 @@ CHECKS['C02'] = dict(
          'eta and posterior() weights/order are compared with an independent '
          're-derivation from the raw stored arrays (split between '
          'exploration and sampling rows taken from the harness\'s own '
-         'record), and the bookkeeping arrays are checked for alignment.',
+         'record), the bookkeeping arrays are checked for alignment, and the '
+         'same recomputation is applied to a second sampler loaded from a '
+         'copy of the checkpoint file.',
     note='Tolerance 1e-9 relative on log quantities, 1e-7 on n_eff/eta; '
          'trusts bounds[i].log_v as the bound volume.',
     technique='property-based testing (Hypothesis), differential against an '
@@ -178,7 +183,8 @@ CHECKS['C05'] = dict(
     category='exploration', design_ref='DESIGN.md §6 (C05)',
     text='Differential: for Hypothesis-generated configurations (networks, '
          'periodic, 9 blob kinds, discard, vectorised, 4 prior kinds) one '
-         'uninterrupted run is the reference; the same run is cut at every '
+         'uninterrupted run is the reference (batch sizes 1..250, checkpoint '
+         'names *.hdf5 / *.h5); the same run is cut at every '
          'batch boundary by n_like_max and by fake-clock timeouts, and a new '
          'sampler is resumed from a copy of the checkpoint at every boundary '
          '(thorough: each continued to the end; quick: stratified '
@@ -227,7 +233,8 @@ CHECKS['C14'] = dict(
 
 CHECKS['C06'] = dict(
     category='fault_enumeration', design_ref='DESIGN.md §7 (C06)',
-    text='Fault enumeration: a Hypothesis-drawn checkpointed run executes in '
+    text='Fault enumeration: a Hypothesis-drawn checkpointed run (file name '
+         '*.hdf5, *.h5 or with inner dots) executes in '
          'a child under strace; every file-mutating syscall on any path of '
          'its private directory is a crash point (exhaustive per run, ~10k '
          'crash points per quick run). The file a kill would leave is '
@@ -249,7 +256,9 @@ CHECKS['C04'] = dict(
     text='Statistical exploration over seed ensembles: Hypothesis draws '
          'cells (closed-form problem x configuration incl. networks, '
          'periodic, sampler pool, split_threshold 1, discard on/off) and '
-         'each cell is run with 48 (quick) / 192 (thorough) independent '
+         'each run always contains two stratified cells (edge mode through the '
+         'sampler pool; two overlapping modes with forced multi-ellipsoid '
+         'bounds); each cell is run with 48 (quick) / 192 (thorough) independent '
          'seeds to convergence; per run the reported error must cover the '
          'analytic log Z and posterior means, per cell a Student-t test '
          '(|t|<=6.5) of log Z error, posterior means and sum of shell '
